@@ -29,7 +29,7 @@ def sig_of(m):
 
 
 def run_k(ctx, kres):
-    return k_suite(ctx, kres, "K09-objects", ksuites.object_traces(ctx), in_projection, sig_of=sig_of)
+    return k_suite(ctx, kres, "K09-objects", ksuites.corpus_traces("C09") + ksuites.object_traces(ctx), in_projection, sig_of=sig_of)
 
 
 def judge(ctx, results):
